@@ -1443,6 +1443,21 @@ def st_recipe(draw, ms, probe):  # noqa: C901, PLR0912, PLR0915
     return provs
 
 
+KNOWN_IDS = {"skeleton": "C03-extra-container-skeleton", "omit": "C03-omit-default-compares-dumped-value"}
+
+
+def exclusions_active() -> frozenset:
+    """The generator avoids the class affected by a finding only while its entry is ``open``; once an entry is flipped
+    to ``fixed`` (or removed) the whole domain is generated again, so a regression is an ordinary VIOLATION.
+    VERIF_C03_NO_EXCLUDE=1 (or a comma list of skeleton,omit) switches the avoidance off by hand, e.g. to validate a
+    candidate fix with VERIF_REPO=<scratch copy>."""
+    import os  # noqa: PLC0415
+    off = os.environ.get("VERIF_C03_NO_EXCLUDE", "")
+    forced_off = set(KNOWN_IDS) if off == "1" else {x.strip() for x in off.split(",") if x.strip()}
+    open_ids = {e.get("id") for e in runner.load_known(PROP) if e.get("status") == "open"}
+    return frozenset(k for k, i in KNOWN_IDS.items() if i in open_ids and k not in forced_off)
+
+
 def known_classes(ms, recipe, strict):
     """Which open findings this (model, recipe) would run into: used to steer the generator away / towards them."""
     out = set()
@@ -1546,7 +1561,7 @@ def fallback_datum(draw, ms):
 
 
 @st.composite
-def st_case(draw, probe=None):  # noqa: C901
+def st_case(draw, probe=None, exclude=frozenset(KNOWN_IDS)):  # noqa: C901
     if probe == "omit":
         # make sure there is a defaulted nested-model field
         ms = draw(st_model().filter(lambda m: any(f["t"] == "inner" and f["p"] in ("dv", "df") for f in m["fields"])))
@@ -1557,8 +1572,8 @@ def st_case(draw, probe=None):  # noqa: C901
     strict = draw(st.integers(0, 4)) != 0
     recipe = draw(st_recipe(ms, probe))
     excluded = 0
-    if probe is None:
-        known = known_classes(ms, recipe, strict)
+    if probe is None and exclude:
+        known = known_classes(ms, recipe, strict) & exclude
         if "skeleton" in known:
             # open finding C03-extra-container-skeleton: collecting policies over nested paths are replaced
             for prov in recipe:
@@ -1636,7 +1651,10 @@ def explore(ctx: runner.Ctx):
             check_case(ctx, case)
     total = ctx.budget(3200, 120000)
     probes = max(2, total // 40)
-    ctx.given(st_case(), lambda case: check_case(ctx, case), total - 2 * probes)
+    active = exclusions_active()
+    ctx.note(f"generator exclusions active for open findings: {sorted(active) or 'none'}")
+    ctx.given(st_case(exclude=active), lambda case: check_case(ctx, case), total - 2 * probes)
+    # the two finding classes keep a small aimed share whether or not they are excluded from the main budget
     ctx.given(st_case(probe="skeleton"), lambda case: check_case(ctx, case), probes, seed_offset=1)
     ctx.given(st_case(probe="omit"), lambda case: check_case(ctx, case), probes, seed_offset=2)
 
